@@ -257,7 +257,7 @@ func PrepareForPackager(
 		switch content.Type {
 		case TypeDir:
 			// implicit directories at the same destination can just be overwritten
-			presentContent, destinationOccupied := contentMap[NormalizeAbsoluteDirPath(content.Destination)]
+			presentContent, destinationOccupied := lookupDestination(contentMap, content.Destination)
 			if destinationOccupied && presentContent.Type != TypeImplicitDir {
 				return nil, contentCollisionError(content, presentContent)
 			}
@@ -276,7 +276,7 @@ func PrepareForPackager(
 			// have been expanded so we can just ignore it, it will be created
 			// by another content element again anyway
 		case TypeRPMGhost, TypeSymlink, TypeRPMDoc, TypeRPMLicence, TypeRPMLicense, TypeRPMReadme, TypeDebChangelog:
-			presentContent, destinationOccupied := contentMap[NormalizeAbsoluteFilePath(content.Destination)]
+			presentContent, destinationOccupied := lookupDestination(contentMap, content.Destination)
 			if destinationOccupied {
 				return nil, contentCollisionError(content, presentContent)
 			}
@@ -324,6 +324,16 @@ func PrepareForPackager(
 	return res, nil
 }
 
+// lookupDestination returns the content that already occupies dst, no matter
+// whether it was recorded as a file ("/a") or as a directory ("/a/").
+func lookupDestination(contentMap map[string]*Content, dst string) (*Content, bool) {
+	if c, ok := contentMap[NormalizeAbsoluteDirPath(dst)]; ok {
+		return c, true
+	}
+	c, ok := contentMap[NormalizeAbsoluteFilePath(dst)]
+	return c, ok
+}
+
 func isRelevantForPackager(packager string, content *Content) bool {
 	if packager == "" {
 		return true
@@ -352,7 +362,7 @@ func addParents(contentMap map[string]*Content, path string, mtime time.Time) er
 		parent = NormalizeAbsoluteDirPath(parent)
 		// check for content collision and just overwrite previously created
 		// implicit directories
-		c, ok := contentMap[parent]
+		c, ok := lookupDestination(contentMap, parent)
 		if ok {
 			// either we already created this directory as an explicit directory
 			// or as an implicit directory of another file
@@ -410,7 +420,7 @@ func addGlobbedFiles(
 ) error {
 	for src, dst := range globbed {
 		dst = NormalizeAbsoluteFilePath(dst)
-		presentContent, destinationOccupied := all[dst]
+		presentContent, destinationOccupied := lookupDestination(all, dst)
 		if destinationOccupied {
 			c := *origFile
 			c.Destination = dst
@@ -454,7 +464,7 @@ func addTree(
 	mtime time.Time,
 ) error {
 	if tree.Destination != "/" && tree.Destination != "" {
-		presentContent, destinationOccupied := all[NormalizeAbsoluteDirPath(tree.Destination)]
+		presentContent, destinationOccupied := lookupDestination(all, tree.Destination)
 		if destinationOccupied && presentContent.Type != TypeImplicitDir {
 			return contentCollisionError(tree, presentContent)
 		}
@@ -517,6 +527,12 @@ func addTree(
 
 		if tree.FileInfo != nil && tree.FileInfo.Mode != 0 && c.Type != TypeSymlink {
 			c.FileInfo.Mode = tree.FileInfo.Mode
+		}
+
+		// only an implicit directory may be replaced, and only by a directory
+		if present, occupied := lookupDestination(all, c.Destination); occupied &&
+			(present.Type != TypeImplicitDir || !c.IsDir()) {
+			return contentCollisionError(c, present)
 		}
 
 		all[c.Destination] = c.WithFileInfoDefaults(umask, mtime)
